@@ -502,7 +502,7 @@ def s_enumerate(ip, st, fr, name, args, c, site):
 
 @S('std::iter::Iterator::rev')
 def s_rev(ip, st, fr, name, args, c, site):
-    it = args[0]
+    it = as_iter(ip, st, args[0])
     return one(X.Iter(it.base, it.pos, it.end, it.kind + ('rev',), it.extra, it.fns))
 
 
